@@ -65,24 +65,8 @@ Definition agrees_gen (r : res (list (instr (T:=float)))) (e : exp) : bool :=
   end.
 """
 
-# stages 1-2: the instruction loop around the generated micro-op loop is written here (kernels without alternatives)
-RUNGEN_UOPS = """Fixpoint outer_gen (ports : list string) (todo : list nat) (k : list (instr (T:=float))) : res (list (instr (T:=float))) :=
-  match todo with
-  | [] => Ok k
-  | idx :: r =>
-    match nth_error k idx with
-    | None => Err EIndex
-    | Some ins => match i_uops ins with
-                  | UList us => pp <- g_bal_uops FNum ports k idx (i_pp ins) us ;; outer_gen ports r (set_pp k idx pp)
-                  | UDict _ => Err EFuel
-                  end
-    end
-  end.
-Definition run_gen (ports : list string) (k : list (instr (T:=float))) : res (list (instr (T:=float))) :=
-  match tp_sum FNum k with
-  | [] => Ok k
-  | _ => k' <- outer_gen ports (seq 0 (List.length k)) (rev k) ;; Ok (rev k')
-  end.
+RUNGEN = """Definition run_gen (ports : list string) (k : list (instr (T:=float))) : res (list (instr (T:=float))) :=
+  g_assign_optimal_throughput FNum (S (List.length k)) ports k 0.
 """
 
 CASE_FOOTER = """
@@ -107,7 +91,61 @@ def shard_text(cases_outs, rungen):
         + "Definition cases : list (list string * list (instr (T:=float)) * exp) := [\n" + ";\n".join(items) + "]." + CASE_FOOTER
 
 
+def run_direct(case):
+    """assign_optimal_throughput on instruction forms built directly from (throughput, row, micro-ops): rows need not be the
+    uniform split, may have the wrong length; micro-ops may name no port or a foreign port -- the exception paths"""
+    import copy
+    from osaca.parser.instruction_form import InstructionForm
+    mm, sem = pressure.semantics_for(case["ports"])
+    kernel = []
+    try:
+        for ln, fi in enumerate(case["kernel"]):
+            f = case["forms"][fi]
+            inst = InstructionForm(mnemonic="i%d" % fi, line_number=ln + 1)
+            inst.port_uops = copy.deepcopy(f["uops"])
+            inst.port_pressure = list(case["init_pp"][ln])
+            inst.throughput = f["tp"]
+            inst.latency = 1.0
+            kernel.append(inst)
+        sem.assign_optimal_throughput(kernel)
+        tps = sem.get_throughput_sum(kernel)
+    except Exception as e:  # noqa
+        return ("err", pressure.classify_exc(e), repr(e))
+    return ("ok", [[float(x) for x in i.port_pressure] for i in kernel], [float(x) for x in tps], [i.port_uops for i in kernel])
+
+
+def perturb(rng, case):
+    """malformed / unusual inputs: what the balancer does with them (which exception, which rows) must be reproduced too"""
+    r = rng.random()
+    ports = case["ports"]
+    ln = rng.randrange(len(case["kernel"]))
+    form = dict(case["forms"][case["kernel"][ln]])
+    uops = form["uops"]
+    first = list(uops.values())[0] if isinstance(uops, dict) else uops
+    if r < 0.2:
+        case["init_pp"][ln] = case["init_pp"][ln][:-1]                              # short row: IndexError
+    elif r < 0.35 and first:
+        first[rng.randrange(len(first))][1] = []                                   # micro-op without ports: itemgetter() TypeError
+    elif r < 0.5 and first:
+        u = first[rng.randrange(len(first))]
+        u[1] = list(u[1]) + [rng.choice(["X", "P9", "77"])]                        # foreign port: ValueError from list.index
+    elif r < 0.6:
+        form["uops"] = {}                                                          # dict form without any alternative: IndexError
+    elif r < 0.7 and isinstance(uops, dict):
+        form["uops"] = {0: list(uops.values())[0]}                                 # a single alternative
+    elif r < 0.85:
+        case["init_pp"][ln] = [rng.choice([0.0, 0.25, 0.5, 1.0, 0.33, 0.01, 0.02]) for _ in ports]   # not the uniform split
+    else:
+        form["tp"] = 0.0
+    if form["uops"] is not uops or form["tp"] != case["forms"][case["kernel"][ln]]["tp"]:
+        case["forms"] = case["forms"] + [form]
+        case["kernel"] = list(case["kernel"])
+        case["kernel"][ln] = len(case["forms"]) - 1
+    return case
+
+
 def gen_cases(rng, n, alternatives):
+    import copy
     out = []
     tries = 0
     while len(out) < n and tries < 50 * n:
@@ -115,8 +153,13 @@ def gen_cases(rng, n, alternatives):
         case = pressure.gen_case(rng, mode="once", tiny=rng.random() < 0.4, maxlen=8)
         if has_alternatives(case) and not alternatives:
             continue
+        case["forms"] = copy.deepcopy(case["forms"])
         case["init_pp"] = [[float(x) for x in row] for row in pressure.initial_pressures(case)]
-        out.append((case, pressure.run_impl(case)))
+        if rng.random() < 0.3:
+            case = perturb(rng, case)
+            out.append((case, run_direct(case)))
+        else:
+            out.append((case, pressure.run_impl(case)))
     return out
 
 
@@ -133,14 +176,15 @@ def cross_check(ctx, rungen, alternatives):
     shards = [("c01bal_%02d" % i, shard_text(g, rungen)) for i, g in enumerate(groups)]
     res = ctx.coq_eval_many(shards, timeout=900)
     total, details = 0, []
-    hist = {"ok": 0, "raises": 0, "changed_rows": 0}
+    hist = {"ok": 0, "raises": {}, "changed_rows": 0, "with_alternatives": 0}
     for g, (ok, out) in zip(groups, res):
         for case, o in g:
             if o[0] == "ok":
                 hist["ok"] += 1
                 hist["changed_rows"] += 1 if o[1] != case["init_pp"] else 0
             else:
-                hist["raises"] += 1
+                hist["raises"][o[1]] = hist["raises"].get(o[1], 0) + 1
+            hist["with_alternatives"] += 1 if has_alternatives(case) else 0
         if not ok or not out:
             details.append("shard failed to evaluate: %s" % (out[0][-1500:] if out else "no output"))
             continue
@@ -172,7 +216,12 @@ def run(ctx):
                     "translation is cross-checked against CPython on random kernels every run)",
                     "aliasing fact of the balancer's translation: inside the instruction loop `instruction_form` IS `kernel[idx]`, so the "
                     "kernel that get_throughput_sum(kernel) sees is `set_pp kernel idx <row being balanced>` (syntactic side checked "
-                    "by the translator: kernel / idx / instruction_form are not re-bound in the loop)"]
+                    "by the translator: kernel / idx / instruction_form are not re-bound in the loop); the instruction forms of a "
+                    "kernel are distinct objects with distinct port_pressure lists (lists are values in the translation)",
+                    "balancer translation, conventions shared with the hand model: sys.maxsize exceeds every port sum (it is `None` of "
+                    "`option T`); int(x) of an infinite / NaN product and UnboundLocalError are not modelled; recursion depth of the "
+                    "alternative search <= number of instructions + 1 (fuel; running out is the distinct error EFuel, which the "
+                    "cross-check would show as a mismatch)"]
     gendir = os.path.join(vlib.COQ, "Gen")
     os.makedirs(gendir, exist_ok=True)
     with open(os.path.join(gendir, ".c01gen.lock"), "w") as lf:
@@ -181,6 +230,8 @@ def run(ctx):
         gen = gen_c01bal.generate(vlib.REPO, gendir)
         ok, text = gen[GEN]
         ctx.obligation("translate assign_optimal_throughput from the current source (Gen/%s)" % GEN, "translation", ok, "" if ok else text)
+        if ok:
+            ctx.trusted += ["balancer translation, modelling convention: " + a for a in gen_c01bal.ASSUMPTIONS]
         compiled = False
         if ok and base_ok:
             compiled, out, dt = ctx.coqc(os.path.join(gendir, GEN))
@@ -190,7 +241,7 @@ def run(ctx):
             ctx.obligation("generated Gen/%s type-checks" % GEN, "translation", False, "Gen/PressureGen.v / PropsGen/C01gen.v unavailable: " + base_out)
         if ok and compiled:
             ctx.compile_theorems(PROPS)
-            cross_check(ctx, RUNGEN_UOPS, alternatives=False)
+            cross_check(ctx, RUNGEN, alternatives=True)
         else:
             ctx.obligation("theorems of %s (regenerated balancer = hand model)" % PROPS, "theorem", False, "generated definitions unavailable")
     ctx.log("balancer translation tie (regenerate, compile, re-prove, cross-check): %.1fs" % (time.time() - t0))
